@@ -916,9 +916,10 @@ def _rmatch(ctx, table, fk, txt, f=None):
             keep |= set(g)
         for mod, g in ctx.m.modfuncs.items():
             keep |= set(g)
-        keep |= set(ctx.m.mods) | {'utils', 'bitstore_helpers', 'dtype_register', 'math', 'struct', 're', 'sys', 'os', 'functools'}
+        keep |= {'dtype_register', 'math', 'struct', 're', 'sys', 'os', 'functools'}      # (module names are also ordinary words: bits, utils)
         ctx._global_names = keep
-    return match(table, fk, txt, keep | set(f.params()) if f is not None else keep, src=ast.unparse(f.node) if f is not None else None)
+    return match(table, fk, txt, keep | set(f.params()) if f is not None else keep, src=ast.unparse(f.node) if f is not None else None,
+                 params=set(f.params()) - {'self', 'cls'} if f is not None else ())
 
 
 def rule_RNG(ctx):
